@@ -12,7 +12,7 @@ Definition s (x : list Z) := x.
 
 (** reviewed justifications (each is also validated by the batch-versus-single oracle on every run) *)
 Definition justified : list (list Z) := [
-  (* lang_flags: assigned on BOTH branches at the head of do_source_file (fix ef701fe), before the file is read *)
+  (* lang_flags: assigned on BOTH branches at the head of do_source_file (fix 8f3a03b), before the file is read *)
   [108;97;110;103;95;102;108;97;103;115];
   (* last_char: at the end of output_text the last character written is never CR (contract K_textws, checked by the oracle) *)
   [108;97;115;116;95;99;104;97;114];
